@@ -42,6 +42,9 @@ func (d *Pegnetd) GradeS(ctx context.Context, block *factom.EBlock) (graderStake
 			extids[i] = entry.ExtIDs[i]
 		}
 		// allow only top 100 stake holders submit prices
+		if len(extids) < 2 {
+			continue // malformed entry: no staker id to look up
+		}
 		stakerRCD := extids[1]
 		if d.Pegnet.IsIncludedTopPEGAddress(stakerRCD) {
 			// ignore bad opr errors
